@@ -749,6 +749,8 @@ class Interp:
             for op, rn in zip(e.ops, e.comparators):
                 r = self.eval(rn, fr)
                 c = self.compare(op, l, r)
+                if len(e.ops) == 1 and not isinstance(c, (bool, SBool)):
+                    return c            # element-wise comparison of arrays yields an array
                 res = sand(res, c)
                 if res is False:
                     return False
